@@ -184,8 +184,31 @@ func runC19(c *Ctx) {
 		"("+idx+"recv.Base.PathMeta.CurrHF) == recv.Base.PathMeta.CurrINF)", "(recv.Base.PathMeta.CurrINF == "+idx+"recv.Base.PathMeta.CurrHF))",
 		"("+bT+".infIndexForHF(recv.Base, recv.Base.PathMeta.CurrHF) == recv.Base.PathMeta.CurrINF)",
 		"(recv.Base.PathMeta.CurrINF == "+bT+".infIndexForHF(recv.Base, recv.Base.PathMeta.CurrHF))")
-	retIs(rT+".IsLastHop", "X1-boundaries", "(int(recv.Base.PathMeta.CurrHF) == (recv.Base.NumHops - 1))", "((recv.Base.NumHops - 1) == int(recv.Base.PathMeta.CurrHF))")
-	retIs(rT+".IsPenultimateHop", "X1-boundaries", "(int(recv.Base.PathMeta.CurrHF) == (recv.Base.NumHops - 2))", "((recv.Base.NumHops - 2) == int(recv.Base.PathMeta.CurrHF))")
+	// IsLastHop / IsPenultimateHop: CurrHF == NumHops-1 / NumHops-2, decided by value
+	// (any equivalent way of writing the comparison evaluates the same)
+	for _, lh := range []struct {
+		name string
+		back int
+	}{{"IsLastHop", 1}, {"IsPenultimateHop", 2}} {
+		fn := c.Fn(rT + "." + lh.name)
+		if fn == nil {
+			continue
+		}
+		back := lh.back
+		RunTable(c, &TableSpec{
+			Rule: "X1-boundaries", Fn: fn, NoInline: []string{"*"},
+			Atoms: []Atom{
+				{Name: "hf", Pats: []string{"recv.Base.PathMeta.CurrHF"}, Domain: []string{"0", "1", "2", "3", "4"}},
+				{Name: "n", Pats: []string{"recv.Base.NumHops"}, Domain: []string{"0", "1", "2", "3", "4", "5", "6"}},
+			},
+			Oracle: func(a map[string]string) map[string]string {
+				var hf, n int
+				fmt.Sscan(a["hf"], &hf)
+				fmt.Sscan(a["n"], &n)
+				return map[string]string{"ret": boolStr(hf == n-back)}
+			},
+		})
+	}
 	// P1
 	if fn := c.Fn(bT + ".IncPath"); fn != nil {
 		RunTable(c, &TableSpec{
@@ -237,8 +260,9 @@ func runC19(c *Ctx) {
 		// with sums on both sides of the bound (6-bit lengths: at most 63 each).
 		segDom := []string{"0", "1", "2", "62", "63"}
 		RunTable(c, &TableSpec{
-			Rule: rule, Fn: v.Fn, NoInline: []string{"*"},
-			Effects: []string{"recv.NumINF", "recv.NumHops"},
+			Rule: rule, Fn: v.Fn, Depth: 3,
+			NoInline: []string{"pkg/private/serrors.*", "(*pkg/slayers/path/scion.MetaHdr).*"},
+			Effects:  []string{"recv.NumINF", "recv.NumHops"},
 			Atoms: []Atom{
 				{Name: "metaErr", Pats: []string{"((*pkg/slayers/path/scion.MetaHdr).DecodeFromBytes(*) != nil)"}, Domain: bd},
 				{Name: "s0", Pats: []string{"recv.PathMeta.SegLen[0]"}, Domain: segDom},
@@ -279,7 +303,29 @@ func runC19(c *Ctx) {
 // NumHops is used only as an addend or compared with the constant MaxHops.
 // (Values boxed for an error message do not influence the outcome.)
 func c19LengthDependence(v *FnView) (bool, string) {
-	S := v.S
+	// the function and the helpers of its package it hands its receiver to
+	fns := []*ssa.Function{v.Fn}
+	inSet := map[*ssa.Function]bool{v.Fn: true}
+	for i := 0; i < len(fns); i++ {
+		for _, b := range fns[i].Blocks {
+			for _, in := range b.Instrs {
+				call, ok := in.(*ssa.Call)
+				if !ok {
+					continue
+				}
+				h := call.Common().StaticCallee()
+				if h == nil || h.Blocks == nil || inSet[h] || h.Pkg != v.Fn.Pkg || h.Signature.Recv() == nil ||
+					strings.Contains(FuncName(h), "MetaHdr)") {
+					continue
+				}
+				if len(call.Common().Args) > 0 && NewSymer().Sym(call.Common().Args[0]) == "recv" {
+					inSet[h] = true
+					fns = append(fns, h)
+				}
+			}
+		}
+	}
+	S := NewSymer()
 	seen := map[string]bool{}
 	var bad []string
 	nLen, nSum := 0, 0
@@ -326,7 +372,8 @@ func c19LengthDependence(v *FnView) (bool, string) {
 			}
 		}
 	}
-	for _, b := range v.Fn.Blocks {
+	for _, fn := range fns {
+	for _, b := range fn.Blocks {
 		for _, in := range b.Instrs {
 			u, ok := in.(*ssa.UnOp)
 			if !ok || u.Op != token.MUL {
@@ -357,6 +404,7 @@ func c19LengthDependence(v *FnView) (bool, string) {
 				}
 			}
 		}
+	}
 	}
 	if nLen == 0 || nSum == 0 {
 		bad = append(bad, fmt.Sprintf("%d loads of SegLen elements, %d loads of NumHops", nLen, nSum))
